@@ -97,3 +97,18 @@ package segread
 //@   ensures [every-dictionary-word-is-evaluated] implies(result1 == nil && qValDte != nil, ghost(0, "dictWordsChecked") == ghost(0, "dictWords"))
 //@   ensures [every-matching-word-is-selected] implies(result1 == nil, ghost(0, "dictWordsSelected") == ghost(0, "dictWordsMatched"))
 //@ end
+
+// C03 (a tree-accelerated answer equals the raw answer): one level of the
+// agile tree is a 6-byte header followed by numNodes records of the same size:
+// 4 bytes node key, 4 bytes per ancestor (desiredLevel-1 of them), 9 bytes per
+// aggregate value.  The reader walks the level with one cursor, so at the start
+// of EVERY record — after a record that was aggregated and after one that was
+// skipped because the bucket limit was reached — the cursor stands on a record
+// boundary (32-bit cursor arithmetic, as in the code).
+//@ spec treeNodeSize(level uint16, numAgg int) uint32 = 4 + uint32(level-1)*4 + uint32(numAgg)*9
+//@ func (*AgileTreeReader).decodeNodeDetailsJit
+//@   props C03
+//@   assumecalleerequires
+//@   loop 2:
+//@     invariant [cursor-on-a-record-boundary] idx == 6 + i * treeNodeSize(desiredLevel, numAggValues)
+//@ end
